@@ -138,7 +138,7 @@ Lemma update_done fx p st h rs evs :
        ++ map (fun pm => mkRate (fst pm) (snd pm) h) evs.
 Proof.
   unfold update.
-  destruct ((match voted_pairs st with [] => false | _ :: _ => true end) && negb (in_range (threshold_raw p (bonded_power st)))); [discriminate|].
+  destruct ((match voted_pairs st with [] => false | _ :: _ => true end) && negb (threshold_ok p (bonded_power st))); [discriminate|].
   destruct (forallb _ _); [|discriminate].
   intro H. injection H as <- <-. split; reflexivity.
 Qed.
@@ -146,13 +146,24 @@ Qed.
 Lemma memb_false x l : memb x l = false <-> ~ In x l.
 Proof. rewrite <- memb_iff. destruct (memb x l); split; intro H; congruence. Qed.
 
+Lemma domain_inv p st h :
+  domain p st h = true ->
+  threshold_ok p (bonded_power st) = true /\
+  (forall a t, In a (votes st) -> In t (a_tuples a) -> Z.abs (snd t) <= SAFE_RATE) /\
+  (forall r, In r (rates st) -> 0 <= r_created r /\ r_created r + p_expiration p < UINT64) /\
+  0 <= p_expiration p /\ 0 <= p_reward_band p <= PREC.
+Proof.
+  unfold domain. rewrite !andb_true_iff, !Z.leb_le, !forallb_forall.
+  intros [[[[[H1 H2] H3] H4] H5] H6]. split; [exact H1|]. split; [|split; [|lia]].
+  - intros a t Ha Ht. specialize (H2 a Ha). rewrite forallb_forall in H2. apply Z.leb_le. apply H2. exact Ht.
+  - intros r Hr. specialize (H3 r Hr). apply andb_true_iff in H3 as [A B].
+    apply Z.leb_le in A. apply Z.ltb_lt in B. lia.
+Qed.
+
 Lemma expired_in_domain p st h e :
   domain p st h = true -> In e (rates st) -> (expired p e h = true <-> expired_at p e h).
 Proof.
-  unfold domain. intros Hd Hin. repeat (apply andb_true_iff in Hd as [Hd ?]).
-  rename H2 into Hr. rewrite forallb_forall in Hr. specialize (Hr e Hin).
-  apply andb_true_iff in Hr as [Hc Hs]. apply Z.leb_le in Hc. apply Z.ltb_lt in Hs.
-  apply Z.leb_le in H1.
+  intros Hd Hin. apply domain_inv in Hd as [_ [_ [Hr [He _]]]]. specialize (Hr e Hin).
   unfold expired, expired_at. rewrite Z.mod_small by lia. apply Z.leb_le.
 Qed.
 
